@@ -382,7 +382,10 @@ def genWalkRule : Option WalkRule := do
   let contCmp ← Cmp.ofName Gen.Sampling.contCmp
   let loopCmp ← Cmp.ofName Gen.Sampling.loopCmp
   let stopRootCmp ← Cmp.ofName Gen.Sampling.stopRootCmp
-  if Gen.Sampling.smallGuardAxis = 0 ∧ Gen.Sampling.parentMapKey = "node_id" ∧ Gen.Sampling.parentMapValue = "parent_id"
+  let factorRound ← (match Gen.Sampling.factorRound with
+    | "none" => some FactorRound.asGiven | "floor" => some .floor | "trunc" => some .floor | "ceil" => some .ceil | _ => none)
+  if Gen.Sampling.smallGuardAxis = 0 ∧ (factorRound = .asGiven ∨ Gen.Sampling.factorRoundSkipsInf = true)
+      ∧ Gen.Sampling.factorRoundBeforeWalk = true ∧ Gen.Sampling.parentMapKey = "node_id" ∧ Gen.Sampling.parentMapValue = "parent_id"
       ∧ Gen.Sampling.fixColumn = "type" ∧ Gen.Sampling.presOp = "BitOr" ∧ Gen.Sampling.presColumn = "node_id"
       ∧ Gen.Sampling.presArgIsPreserveNodes = true ∧ Gen.Sampling.fixIdColumn = "node_id"
       ∧ Gen.Sampling.somaAppendsToFix = true ∧ Gen.Sampling.stopSetFromFix = true ∧ Gen.Sampling.startsFromFix = true
@@ -393,7 +396,7 @@ def genWalkRule : Option WalkRule := do
       ∧ Gen.Sampling.exhaustedRecordsAndMoves = true ∧ Gen.Sampling.flagResetEachRound = true
       ∧ Gen.Sampling.keepColumn = "node_id" ∧ Gen.Sampling.keepUsesKeys = true ∧ Gen.Sampling.mapColumn = "node_id"
       ∧ Gen.Sampling.mapTarget = "parent_id" then
-    pure { smallCmp := smallCmp, smallK := Gen.Sampling.smallGuardK, sentinelKey := Gen.Sampling.sentinelKey,
+    pure { factorRound := factorRound, smallCmp := smallCmp, smallK := Gen.Sampling.smallGuardK, sentinelKey := Gen.Sampling.sentinelKey,
            sentinelValue := Gen.Sampling.sentinelValue, fixCmp := fixCmp, fixType := fixType,
            presUnion := Gen.Sampling.presKeepsSelection, stopSetHasSoma := Gen.Sampling.stopSetHasSoma,
            startsHaveSoma := Gen.Sampling.startsHaveSoma, contCmp := contCmp, contK := Gen.Sampling.contK,
@@ -402,25 +405,26 @@ def genWalkRule : Option WalkRule := do
            stopRootK := Gen.Sampling.stopRootK }
   else none
 
-/-- The extracted walk rule is the one the model hard-wires: fix points are the rows whose type is not `slab`,
+/-- The extracted walk rule is the one the model hard-wires: a finite factor is rounded down before the walk (`inf` is
+left alone), fix points are the rows whose type is not `slab`,
 preserved ids are OR-ed in, the soma ids reach both the start list and the membership test of the walk, the scan runs
 `i = 0; while i < factor; i += 1`, stops on `new_p in fix or new_p < 0` and continues while `new_p >= 0`. -/
 theorem gen_walk_rule : genWalkRule = some walkRule0 := by decide
 
 /-- **`_downsample_treeneuron` as written today is the model `downsample`** — for every well-formed table, every
-factor (`none` = inf; a float `q` acts as `⌈q⌉`), `preserve_nodes` given or `None`, and every soma list: the soma ids
+factor (`none` = inf; a float `q` acts as `⌊q⌋`), `preserve_nodes` given or `None`, and every soma list: the soma ids
 are fix points of the walk exactly like preserved ids. -/
 theorem gen_downsample_is_model (t : Table) (hw : WF t) (q : Option Rat) (pres : Option (List Int)) (soma : List Int)
     (hs : ∀ s ∈ soma, s ∈ ids t) :
-    genWalkRule.map (fun r => downsampleG r t q pres soma) = some (downsample t (q.map ceilNat) (pres.getD [] ++ soma)) := by
+    genWalkRule.map (fun r => downsampleG r t q pres soma) = some (downsample t (q.map floorNat) (pres.getD [] ++ soma)) := by
   rw [gen_walk_rule, Option.map_some, downsampleG_rule0 hw q pres soma hs]
 
 /-- Hence the code as written satisfies the whole downsampling clause list, with the soma and the preserved nodes among
-the fix points and at most `⌈factor⌉` nodes dropped between a kept node and its new parent. -/
+the fix points and at most `⌊factor⌋ ≤ factor` nodes dropped between a kept node and its new parent. -/
 theorem gen_downsample_satisfies_spec (t : Table) (hw : WF t) (hl : labelsOKB t = true) (q : Option Rat)
     (pres : Option (List Int)) (soma : List Int) (hs : ∀ s ∈ soma, s ∈ ids t) (fix : List Int)
     (hfix : ∀ i ∈ fix, ∃ n ∈ t, n.id = i ∧ (n.label ≠ .slab ∨ i ∈ pres.getD [] ∨ i ∈ soma)) :
-    ∀ r, genWalkRule = some r → DsSpec t (downsampleG r t q pres soma) (q.map ceilNat) fix := by
+    ∀ r, genWalkRule = some r → DsSpec t (downsampleG r t q pres soma) (q.map floorNat) fix := by
   intro r hr
   rw [gen_walk_rule] at hr
   cases hr
@@ -559,14 +563,25 @@ theorem gen_methods :
 
 /-! ## 2. Downsampling: float factors, inherited root paths -/
 
-/-- A float factor `q` drops at most `⌈q⌉` nodes between a kept node and its new parent (the loop test is `i < q` on an
-integer counter) — for a non-integer factor this is one more than `factor` itself. -/
-theorem downsample_gap_le_ceil_factor (t : Table) (hw : WF t) (hl : labelsOKB t = true) (q : Rat)
+/-- **Gap ≤ factor for float factors**: a finite factor `q` is rounded down before the walk, so at most `⌊q⌋` — hence
+at most `q` — nodes are dropped between a kept node and its new parent.  (Before navis' fix `5174d76` the unrounded
+factor was compared with an integer counter and `⌈q⌉` nodes could be dropped.) -/
+theorem downsample_gap_le_floor_factor (t : Table) (hw : WF t) (hl : labelsOKB t = true) (q : Rat) (hq : 0 ≤ q)
     (pres : Option (List Int)) (soma : List Int) (hs : ∀ s ∈ soma, s ∈ ids t) (m : Node)
     (hm : m ∈ downsampleG walkRule0 t (some q) pres soma) (hp : 0 ≤ m.parent) :
-    m.parent ∈ (rootPath t m.id).tail ∧ (rootPath t m.id).tail.idxOf m.parent ≤ ceilNat q := by
+    m.parent ∈ (rootPath t m.id).tail ∧ (rootPath t m.id).tail.idxOf m.parent ≤ floorNat q ∧
+    (((rootPath t m.id).tail.idxOf m.parent : Nat) : Rat) ≤ q := by
   rw [downsampleG_rule0 hw (some q) pres soma hs] at hm
-  exact downsample_gap_le_factor t hw hl (ceilNat q) _ m hm hp
+  obtain ⟨h1, h2⟩ := downsample_gap_le_factor t hw hl (floorNat q) _ m hm hp
+  refine ⟨h1, h2, ?_⟩
+  have hf0 : 0 ≤ q.floor := Rat.le_floor_iff.mpr (by simpa using hq)
+  have h3 : (((rootPath t m.id).tail.idxOf m.parent : Nat) : Int) ≤ q.floor := by
+    unfold floorNat at h2
+    omega
+  calc (((rootPath t m.id).tail.idxOf m.parent : Nat) : Rat)
+      = ((((rootPath t m.id).tail.idxOf m.parent : Nat) : Int) : Rat) := by push_cast; rfl
+    _ ≤ (q.floor : Rat) := by exact_mod_cast h3
+    _ ≤ q := Rat.floor_le q
 
 /-- **Branching structure unchanged, full strength**: the root path of every kept node in the result is its old root
 path restricted to the kept nodes. -/
@@ -736,9 +751,8 @@ example : interiorPts (knots 0 [⟨6, 0, 0, 1⟩, ⟨3, 0, 0, 2⟩, ⟨0, 0, 0, 
 example : nearest [(1, ⟨0, 0, 0, 0⟩), (2, ⟨10, 0, 0, 0⟩), (3, ⟨4, 0, 0, 0⟩)] ⟨6, 0, 0, 0⟩ = some 3 := by decide +kernel
 
 -- second pass
-example : downsampleG walkRule0 ex (some (5 / 2)) none [6] = downsample ex (some 3) [6] := by decide +kernel
-example : (downsampleG walkRule0 ex (some (5 / 2)) none [6]).map (fun n => (n.id, n.parent)) =
-    [(1, -1), (3, 1), (4, 3), (6, 3), (8, 6), (9, -1)] := by decide +kernel
+example : downsampleG walkRule0 ex (some (5 / 2)) none [6] = downsample ex (some 2) [6] := by decide +kernel
+example : downsampleG walkRule0 ex (some (7 / 2)) none [] = downsample ex (some 3) [] := by decide +kernel
 example : downsampleNeuronG .le 1 walkRule0 ex (some 1) none [] = none := by decide +kernel
 example : rootPath (downsample ex (some 2) []) 8 = [8, 5, 3, 1] ∧ rootPath ex 8 = [8, 7, 6, 5, 3, 2, 1] := by decide +kernel
 example : resampleStructG resRule0 ex (cntOf (coordLen ex) 2) = resampleStruct ex (cntOf (coordLen ex) 2) := by decide +kernel
